@@ -56,6 +56,7 @@ impl Prop for C03 {
                     pool: Pool::Overlap,
                     templates: false,
                     ambiguous_ok: true,
+                    ..gen::BnfParams::lr_small()
                 },
                 6..12,
                 16,
